@@ -435,7 +435,7 @@ fn run_backend<B: Backend>(mk: &(dyn Fn() -> B + Sync), rep: &mut Report, themes
         let a = alphabet(th);
         for sh in shapes {
             // the fourth alphabet is the largest: its 2+1 programs are left to the thorough tier
-            if *th == "welcomes" && !thorough && sh.len() == 2 && sh[0] == 2 {
+            if (*th == "welcomes" || *th == "messages") && !thorough && sh.len() == 2 && sh[0] == 2 {
                 continue;
             }
             for set in program_sets(&a, sh) {
